@@ -1,4 +1,4 @@
-(* Props/C08.v — property theorems only; each closed by `exact <lemma>` (proofs in StateTree/{Lemmas,Lcs,Apply,Embeds}.v).
+(* Props/C08.v — property theorems only; each closed by `exact <lemma>` (proofs in StateTree/{Lemmas,Lcs,Apply,Embeds,Indep,Script,Unamb,Carried,MixedThm}.v).
 
    C08: "For every pair of old and new state layouts, the computed migration copies only between
    subtrees of identical shape, stays inside both storages, never writes a destination word twice,
@@ -8,7 +8,8 @@
 
    All theorems quantify over ALL layouts (no size bound). *)
 From Coq Require Import List NArith Permutation.
-From Mimium Require Import StateTree.Model StateTree.Lemmas StateTree.Apply StateTree.Embeds.
+From Mimium Require Import StateTree.Model StateTree.Lemmas StateTree.Apply StateTree.Embeds
+  StateTree.Indep StateTree.Script StateTree.Unamb StateTree.Carried StateTree.MixedThm.
 Import ListNotations.
 Local Open Scope N_scope.
 
@@ -118,3 +119,120 @@ Example C08_example_embeds :
   embeds (FnCall [FnCall [Mem 1; Feed 1; Mem 1]])
          (FnCall [FnCall [Mem 1; Feed 1; Mem 1]; FnCall [Mem 1; Delay 1]]).
 Proof. apply emb_call. apply el_keep; [apply emb_eq|]. apply el_skip. apply el_nil. Qed.
+
+(* ---- MIXED edits: subtrees removed AND added in ONE edit, at any depth (the property's last sentence covers them too) ----
+   Layouts carry no call-site identity; the sibling matching (build_patches_recursive / lcs_by_score) maximises, at every pair of call
+   nodes, the number of carried CELLS (then the number of identical pairs).  Definitions (StateTree/Script.v, Indep.v, Unamb.v, Carried.v):
+
+     step := Same s | Del o | Ins n | Edit o n      one step of an edit script over the children of a call node: an untouched child,
+                                                   an old child removed, a new child added, an old child changed in place into a new one
+     olds sc / news sc                              the old / new row of children the script sc describes
+     medit old new k                                new is obtained from old by removing some subtrees and adding others at any depth;
+                                                   k = number of cells in the surviving subtrees:
+         me_same : medit s s (count_cells s)        me_none : medit o n 0 (replaced: nothing is claimed to survive)
+         me_call : medit_list sc k -> medit (FnCall (olds sc)) (FnCall (news sc)) k
+         medit_list: Same s adds count_cells s, Edit o n adds k1 when medit o n k1, Del / Ins add nothing
+     share a b : bool                               a and b have an identical sub-layout WITH cells at equal depth (a itself, or
+                                                   recursively a child of a with a child of b); share a b = false -> nothing is carried
+     new_fresh os sc                                every added new child (Ins n) shares nothing with any old child in os; every changed new
+                                                   child (Edit o n) differs from o and shares nothing with any old child other than o
+     old_fresh ns sc                                symmetrically for the removed (Del o) and changed old children against the new children ns
+     carried P old new so dn ps c                   ps = the whole-subtree copies of an order-preserving matching of identical subtrees of old
+                                                   (laid out from so) and new (from dn); c = cells in the matched subtrees:
+         ca_whole: carried P s s so dn [mkPatch so dn (size s)] (count_cells s);   ca_none: carried P o n so dn [] 0;
+         ca_call : carried_list P os ns so dn ps c -> P os ns so dn ps -> carried P (FnCall os) (FnCall ns) so dn ps c, the children being
+                   paired in order (cl_pair: patches appended, cells added) or passed over (cl_old / cl_new advance so / dn by the child's size)
+     untouched_whole os ns so dn ps                 the two clauses of C08_survivors_mixed_unambiguous for the rows os / ns laid out from so / dn
+
+   COUNT form (C08_survivors_mixed_count, no hypothesis, unit = CELLS): the plan is the set of copies of such a matching and carries at least
+   as many cells as the surviving subtrees contain.  Words cannot be the unit, the matching maximises cells: old [[M5 M1 M1]] -> new [[M1 M1 D0] [M5 E1]] carries the two M1 (2 words)
+   although the reading "child 0 edited into [M5 E1], [M1 M1 D0] added" has the 5-word survivor M5 (1 cell).
+   IDENTITY form (C08_survivors_mixed_unambiguous): for UNAMBIGUOUS scripts every untouched child with cells is copied WHOLE from / to an
+   identical child ("up to exchange among identically shaped siblings").  One-sided: the clause for new children needs new_fresh only, the
+   clause for old children old_fresh only; pure removals (no Ins / Edit) need nothing (= C08_survivors_whole).
+   For AMBIGUOUS scripts the identity form is FALSE (C08_survivors_mixed_refuted: a chain of partial matches carries more cells than the
+   identical pair of an untouched child).  This cannot be repaired without losing C08_survivors: a scoring that puts identical pairs first
+   repairs the witness but carries only 2 of 3 words on old = [[M1 E1] [M1 E1 D1]], new = [[E1] [M1 E1]] (a pure deletion that is also
+   "child 1 removed, [E1] added in front of the untouched child 0"; C08_example_ambiguous_deletion shows the present code carrying 3/3).
+   Recorded as finding F29 (class mixed-edit-ambiguous-partial-chain). *)
+
+(* count form, any depth *)
+Theorem C08_survivors_mixed_count : forall (o n : skel) (k total : N) (ps : list patch),
+  plan o n = Some (total, ps) -> medit o n k ->
+  exists ps' c, carried untouched_whole o n 0 0 ps' c /\ (forall p, In p ps' <-> In p ps) /\ k <= c.
+Proof. exact survivors_mixed_count. Qed.
+
+(* what every plan is (no hypothesis): the copies of an order-preserving matching of identical subtrees; at every pair of different call
+   nodes which that matching pairs, the identity form holds for every unambiguous script between their children (level by level, any depth) *)
+Theorem C08_plan_is_matching : forall (o n : skel) (total : N) (ps : list patch),
+  plan o n = Some (total, ps) ->
+  exists ps' c, carried untouched_whole o n 0 0 ps' c /\ (forall p, In p ps' <-> In p ps).
+Proof. exact plan_carried. Qed.
+
+(* identity form for the children of the root.  `child_off cs i := sumN (map size (firstn i cs))`.
+   A new child c with cells that also occurs among the old children is an untouched one under new_fresh (an added or changed child
+   cannot share anything with an old child other than its counterpart, from which it differs). *)
+Theorem C08_survivors_mixed_unambiguous : forall (sc : script) (total : N) (ps : list patch),
+  plan (FnCall (olds sc)) (FnCall (news sc)) = Some (total, ps) ->
+  (new_fresh (olds sc) sc ->
+     forall j c, nth_error (news sc) j = Some c -> 0 < count_cells c -> In c (olds sc) ->
+     exists i, nth_error (olds sc) i = Some c /\
+               In (mkPatch (child_off (olds sc) i) (child_off (news sc) j) (size c)) ps) /\
+  (old_fresh (news sc) sc ->
+     forall i c, nth_error (olds sc) i = Some c -> 0 < count_cells c -> In c (news sc) ->
+     exists j, nth_error (news sc) j = Some c /\
+               In (mkPatch (child_off (olds sc) i) (child_off (news sc) j) (size c)) ps).
+Proof. exact survivors_mixed_unambiguous. Qed.
+
+(* share = false means nothing is carried, wherever the two layouts are laid out; the carried cells never depend on the addresses *)
+Theorem C08_no_share_nothing_carried : forall a b, share a b = false -> forall so dn, snd (bp a b so dn) = 0.
+Proof. exact no_share_no_cells. Qed.
+
+Theorem C08_carried_cells_address_free : forall o n so dn so' dn', snd (bp o n so dn) = snd (bp o n so' dn').
+Proof. exact bp_cells_indep. Qed.
+
+(* the identity form fails for ambiguous scripts: old = (A, B), new = (B, C), A = {self, mem, delay 1} removed, C = {mem, delay 1} added
+   behind the untouched B = {self, mem}; C shares mem with B (C08_example_refuted_is_ambiguous).  The chain A->B (2 cells) + B->C (1 cell)
+   beats the identical pair B->B (2 cells + bonus): B's new place is filled from A.  Found through C07's histories. *)
+Theorem C08_survivors_mixed_refuted :
+  exists sc total ps j c,
+    plan (FnCall (olds sc)) (FnCall (news sc)) = Some (total, ps) /\
+    In (Same c) sc /\ nth_error (news sc) j = Some c /\ 0 < count_cells c /\
+    forall i, nth_error (olds sc) i = Some c ->
+      ~ In (mkPatch (child_off (olds sc) i) (child_off (news sc) j) (size c)) ps.
+Proof. exact mixed_refuted. Qed.
+
+Example C08_example_refuted_is_ambiguous :
+  share (FnCall [Feed 1; Mem 1]) (FnCall [Mem 1; Delay 1]) = true /\
+  ~ new_fresh (olds [Del (FnCall [Feed 1; Mem 1; Delay 1]); Same (FnCall [Feed 1; Mem 1]); Ins (FnCall [Mem 1; Delay 1])])
+              [Del (FnCall [Feed 1; Mem 1; Delay 1]); Same (FnCall [Feed 1; Mem 1]); Ins (FnCall [Mem 1; Delay 1])].
+Proof. exact mixed_refuted_ambiguous. Qed.
+
+(* the layouts of the C07 history that exposed it: dsp children (f115, f131, f105, f127) -> (f115, f105, f128, f127); the untouched f105
+   (old words 16..18, new words 7..9) is filled from f131 (7, 9, 10), the added f128 inherits f105's mems (17, 18) *)
+Example C08_example_delins_witness :
+  plan (FnCall [FnCall [Feed 1; Mem 1; Mem 1; Mem 1; Delay 1]; FnCall [Feed 1; Mem 1; Mem 1; Mem 1; Delay 3];
+                FnCall [Feed 1; Mem 1; Mem 1]; FnCall [Feed 1; Mem 1; Delay 3]])
+       (FnCall [FnCall [Feed 1; Mem 1; Mem 1; Mem 1; Delay 1]; FnCall [Feed 1; Mem 1; Mem 1];
+                FnCall [Mem 1; Mem 1; Delay 3]; FnCall [Feed 1; Mem 1; Delay 3]]) =
+  Some (24, [mkPatch 0 0 7; mkPatch 7 7 1; mkPatch 9 8 1; mkPatch 10 9 1; mkPatch 17 10 1; mkPatch 18 11 1; mkPatch 19 17 7]).
+Proof. exact delins_witness. Qed.
+
+(* the hypotheses are satisfiable: the same edit with an added site D = {delay 7, self (2 words)} that shares nothing with A and B *)
+Example C08_example_unambiguous :
+  new_fresh (olds u_script) u_script /\
+  u_script = [Del (FnCall [Feed 1; Mem 1; Delay 1]); Same (FnCall [Feed 1; Mem 1]); Ins (FnCall [Delay 7; Feed 2])] /\
+  plan (FnCall (olds u_script)) (FnCall (news u_script)) = Some (13, [mkPatch 5 0 2]).
+Proof. exact u_example. Qed.
+
+(* the pure deletion on which an identical-pairs-first scoring would lose a word: the present scoring carries 3 of 3 *)
+Example C08_example_ambiguous_deletion :
+  embeds (FnCall [FnCall [Feed 1]; FnCall [Mem 1; Feed 1]]) (FnCall [FnCall [Mem 1; Feed 1]; FnCall [Mem 1; Feed 1; Delay 1]]) /\
+  plan (FnCall [FnCall [Mem 1; Feed 1]; FnCall [Mem 1; Feed 1; Delay 1]]) (FnCall [FnCall [Feed 1]; FnCall [Mem 1; Feed 1]])
+  = Some (3, [mkPatch 1 0 1; mkPatch 2 1 1; mkPatch 3 2 1]).
+Proof. exact ambiguous_deletion_example. Qed.
+
+(* a mixed edit at depth: child 0 edited inside (M2 removed, D0 added, M1 survives), [M2 E1] added, M3 untouched: 2 cells survive *)
+Example C08_example_nested_medit :
+  medit (FnCall [FnCall [Mem 2; Mem 1]; Mem 3]) (FnCall [FnCall [Mem 1; Delay 0]; FnCall [Mem 2; Feed 1]; Mem 3]) 2.
+Proof. exact nested_medit. Qed.
